@@ -159,6 +159,8 @@ def run_property(pid, tier, seed, jobs):
             # failures: de-duplicate by (function,class,description)
             seen = set()
             for f in r.failed:
+                if spec.get("only_classes") and f["class"] not in spec["only_classes"]:
+                    continue    # harness observes a sub-clause only (e.g. UB, not panics)
                 key = (f["function"], f["class"], f["description"])
                 if key in seen:
                     continue
